@@ -64,5 +64,7 @@ Example C20_example :
   Forall passive st /\
   run [] [[4; 1;0;0; 7;0;0; 6;0;1; 4;0;0; 0; 0;3;42; 2;2;104;105; 3; 2;1;33];
           [3; 1;0;0; 7;0;0; 3;1;0; 0; 2;2;104;105]]
-  = [[0; 200; 1; 3; hash_bytes [104;105;33]; 1; 136; 1]; [0; 429; 0; 1; hash_bytes [2]; 0; 0; 0]].
-Proof. split; [repeat constructor|vm_compute; reflexivity]. Qed.
+  = [[0; 200; 1; 3; hash_bytes [104;105;33]; 1; 136; 1; 0]; [0; 429; 0; 1; hash_bytes [2]; 0; 0; 0; 0]] /\
+  (* a handler behind trace(cbreaker(handler)), the tracer writing to a failing sink and no buffer: its flush reaches the connection *)
+  run [] [[2; 1;0;1; 4;0;0; 0; 1;200; 3; 2;2;104;105]] = [[0; 200; 1; 2; hash_bytes [104;105]; 0; 0; 0; 1]].
+Proof. split; [repeat constructor|split; vm_compute; reflexivity]. Qed.
